@@ -1,5 +1,49 @@
 ------------------------------- MODULE MC_C18T -------------------------------
-EXTENDS TemplateCache, TLC
-CONSTANT MaxObjs
+(* Bounded instances of TemplateCache.                                      *)
+(*  MCTSpec : the abstract machine over Keys (plain cached_template calls).  *)
+(*  CompSpec: component level - every sequence of MaxLen steps (render of   *)
+(*            class c / clear) over the class table CT, in which several     *)
+(*            classes share one import path (ClassPaths[c] = path of class   *)
+(*            c; the template of class c is template number c).  Every      *)
+(*            complete sequence is exported as one JSON line with, per step, *)
+(*            the object the specification hands out, the template it was    *)
+(*            compiled from and the LRU order (spec -> code replay).         *)
+EXTENDS TemplateCache, TLC, Json, IOUtils
+CONSTANTS MaxObjs, ClassPaths, MaxLen
+VARIABLE hist
+mctVars == <<order, val, ret, made, got, req, cls, hist>>
+
 Limit == Len(made) <= MaxObjs
+
+MCTSpec == (TCInit /\ hist = <<>>) /\ [][TCNext /\ UNCHANGED hist]_mctVars
+
+\* class tables (a cfg file cannot hold a tuple): ClassPaths <- P1112 etc.
+P11 == <<1, 1>>
+P1112 == <<1, 1, 1, 2>>
+P1122 == <<1, 1, 2, 2>>
+P11122 == <<1, 1, 1, 2, 2>>
+
+CT == [c \in 1..Len(ClassPaths) |-> [path |-> ClassPaths[c], src |-> c]]
+
+CompNext ==
+  /\ Len(hist) < MaxLen
+  /\ \/ \E c \in 1..Len(CT) :
+          /\ RenderClass(CT, c)
+          /\ hist' = Append(hist, [op |-> "render", c |-> c, obj |-> got',
+                                   fresh |-> (Len(made') > Len(made)),
+                                   src |-> SrcOfKey(made'[got']),
+                                   fwd |-> [i \in 1..Len(order') |-> SrcOfKey(order'[i])]])
+     \/ /\ ClearCache
+        /\ hist' = Append(hist, [op |-> "clear", c |-> 0, obj |-> 0, fresh |-> FALSE, src |-> 0, fwd |-> <<>>])
+
+CompSpec == (TCInit /\ hist = <<>>) /\ [][CompNext]_mctVars
+
+ClassOwn == OwnTemplate(CT)
+ClassNoSharing == NoSharing(CT)
+
+ExportComp ==
+  \/ Len(hist) < MaxLen
+  \/ Serialize(ToJson([max |-> MaxSize, classes |-> CT, steps |-> hist]) \o "\n",
+               IOEnv.OUT, [format |-> "TXT", charset |-> "UTF-8",
+                           openOptions |-> <<"WRITE", "CREATE", "APPEND">>]).exitValue = 0
 =============================================================================
